@@ -401,6 +401,6 @@ LEVEL_NOTE = ("Trusted: Coq kernel/vm_compute; the hand-written models Shapes.v/
               "the pprint line format are exercised, not proved. Hypotheses: duplicate-free basis lists; for the no-repeated-line clause no basis "
               "label of the form a<digits> and disjoint arity classes (proved for the shipped bases). No axioms (Print Assumptions: closed under "
               "the global context).")
-TECHNIQUE = ("Coq proof: Lukasiewicz criterion <-> tree code; loop invariant over the parent/left/right arrays (free-right-slot ancestor stack) "
+TECHNIQUE = ("Coq proof over translator-generated check_tree and get_allowed_shapes (ast -> Gallina, refinement to the hand model): Lukasiewicz criterion <-> tree code; loop invariant over the parent/left/right arrays (free-right-slot ancestor stack) "
              "for check_tree; prefix-determinism for pruning; bijection labelled trees <-> (shape, label tuples) with NoDup/Permutation; "
              "correspondence by vm_compute on generated cases; spec-side multiset comparison with an independent recursive enumerator")
